@@ -28,14 +28,14 @@ OK_LIKE = ('Result::Ok', 'Option::None', 'ControlFlow::Continue')       # varian
 ERR_LIKE = ('Result::Err', 'Option::Some', 'ControlFlow::Break')        # variant index 1
 
 
-def reach_x(body, starts, stop=(), assume_stmt=None, assume_call=None):
+def reach_x(body, starts, stop=(), assume_stmt=None, assume_call=None, init=None):
     """forward reachability that follows only the feasible side of a switch when the switched value is
     known on the path.  Known values: bool constants and their copies / negations; the variant of a
     Result / Option / ControlFlow built on the path (aggregate, `from_residual`, `Try::branch` of a
     known variant, `bool::then_some` of a known bool) and discriminants read from it; plus the assumed
     results of the given statements (assume_stmt: {id(stmt): value}) and calls (assume_call: {bb: value})."""
     assume_stmt = assume_stmt or {}; assume_call = assume_call or {}
-    seen = set(); out = set(); work = [(s, frozenset()) for s in starts if s not in stop]
+    seen = set(); out = set(); work = [(s, frozenset((init or {}).items())) for s in starts if s not in stop]
     plain = lambda o: o is not None and o['k'] in ('copy', 'move') and not o['pl']['p']
     while work:
         bi, env = work.pop()
@@ -58,7 +58,8 @@ def reach_x(body, starts, stop=(), assume_stmt=None, assume_call=None):
             elif rv['k'] == 'un' and rv['op'] == 'Not' and plain(o) and isinstance(e.get(o['pl']['l']), bool): e[d['l']] = not e[o['pl']['l']]
             elif rv['k'] == 'agg' and rv['adt'].endswith(OK_LIKE): e[d['l']] = ('V', 0)
             elif rv['k'] == 'agg' and rv['adt'].endswith(ERR_LIKE): e[d['l']] = ('V', 1)
-            elif rv['k'] == 'discr' and not rv['pl']['p'] and isinstance(e.get(rv['pl']['l']), tuple) and e[rv['pl']['l']][0] == 'V': e[d['l']] = ('D', e[rv['pl']['l']][1])
+            elif rv['k'] == 'discr' and variant_at(e, rv['pl']) is not None: e[d['l']] = ('D', variant_at(e, rv['pl']))
+            elif rv['k'] == 'ref' and not rv.get('mut') and not rv['pl']['p'] and isinstance(e.get(rv['pl']['l']), tuple) and e[rv['pl']['l']][0] == 'V': e[d['l']] = ('P', rv['pl']['l'])
             else: e.pop(d['l'], None)
         t = blk['term']
         succs = body.succ(bi)
@@ -75,6 +76,8 @@ def reach_x(body, starts, stop=(), assume_stmt=None, assume_call=None):
                     e[dl] = ('V', (1 - known[1]) if is_opt else known[1])          # Some -> Continue, None -> Break ; Ok -> Continue, Err -> Break
                 elif item == 'from_residual' and T.FROM_RESIDUAL.search(nm): e[dl] = ('V', 0 if is_opt else 1)
                 elif re.search(r'bool>::then_some(::<.*>)?$', nm) and isinstance(known, bool): e[dl] = ('V', 1 if known else 0)
+                elif item in ('is_none', 'is_some') and re.search(r'Option::<.*>::is_(none|some)$', nm) and plain(a0) and variant_at(e, {'l': a0['pl']['l'], 'p': ['*']}) is not None:
+                    e[dl] = (variant_at(e, {'l': a0['pl']['l'], 'p': ['*']}) == 1) == (item == 'is_some')
                 else: e.pop(dl, None)
             else: e.pop(t['dst']['l'], None)
         elif t['k'] == 'switch' and t['d']['k'] != 'const' and not t['d']['pl']['p'] and t['d']['pl']['l'] in e:
@@ -90,12 +93,15 @@ def reach_x(body, starts, stop=(), assume_stmt=None, assume_call=None):
     return out
 
 
-class PathSensitive:
-    """a Body whose `reach` is path-sensitive (reach_x); lets the shared T-ERRFLOW template see that the
-    Err produced inside a normalised `collect::<Result<..>>` loop only takes the Break arm of the outer `?`"""
-    def __init__(self, body): self._b = body
-    def __getattr__(self, n): return getattr(self._b, n)
-    def reach(self, start, stop=()): return reach_x(self._b, start, stop)
+def variant_at(e, pl):
+    """known variant index of the enum at place `x` or `*p` (p a shared reference to a local of known variant)"""
+    v = e.get(pl['l'])
+    if not isinstance(v, tuple): return None
+    if not pl['p'] and v[0] == 'V': return v[1]
+    if pl['p'] == ['*'] and v[0] == 'P':
+        w = e.get(v[1])
+        if isinstance(w, tuple) and w[0] == 'V': return w[1]
+    return None
 
 
 # ------------------------------------------------------------------------------------ shared helpers
@@ -119,6 +125,24 @@ def sense_tests(ctx, body, src_pred=None):
     names = {v['discr']: v['name'] for v in adt['variants']} if adt else {}
     for bi, st in body.stmts():
         rv = st['rv']
+        # self.sense == Sense::Minimize as i32   (the raw field against the variant's number)
+        if rv['k'] == 'bin' and rv['op'] in ('Eq', 'Ne') and not st['dst']['p']:
+            sl = [ctx.S.slice_operand(body, o) for o in rv['ops']]
+            def variant_of(o, s_):
+                if o['k'] == 'const':
+                    m = re.fullmatch(r'(-?\d+)_i32', _cv(o) or '')
+                    return names.get(int(m.group(1))) if m else None
+                vs = {m.group(1) for c in s_.consts for m in [re.search(r'Sense::(\w+)', c)] if m}
+                return vs.pop() if len(vs) == 1 and all(a == 'tuple' for a, f in s_.fields) and not s_.params else None
+            for (o, s_), (o2, s2) in ((list(zip(rv['ops'], sl))), list(zip(rv['ops'], sl))[::-1]):
+                v = variant_of(o2, s2)
+                if v is None or not any(f == 'sense' for a, f in s_.fields): continue
+                if src_pred is not None and not src_pred(s_): continue
+                for sb, neg in T.bool_flow(body, st['dst']['l']):
+                    tt, ft = T.switch_sides(body, sb, neg)
+                    yes, no = (tt, ft) if rv['op'] == 'Eq' else (ft, tt)
+                    out.append((bi, v, [yes], [no], o, sb))
+                break
         if rv['k'] == 'discr' and not st['dst']['p'] and re.search(SENSE_RE, body.locals[rv['pl']['l']].lstrip('&').strip()):
             op = {'k': 'copy', 'pl': rv['pl']}
             if src_pred is not None and not src_pred(ctx.S.slice_operand(body, op)): continue
@@ -154,8 +178,74 @@ def item_fields(body, lo, op, depth=14):
     return None
 
 
+# adaptors through which a failure stays a failure (None => None / Err => Err, or None => Err), whatever they do to the success value.
+# (templates.ERR_BAD lists and_then / filter because they can turn a success into a failure; for `failure ends in an Err-exit` that is irrelevant.)
+ERR_KEEPING = re.compile(r'(Option|Result)::<.*>::(and_then|and|inspect|inspect_err|filter|zip|flatten|map|map_err|copied|cloned|as_ref|as_mut|as_deref|ok_or|ok_or_else)(::<.*>)?$')
+
+
+def closure_of(body, op):
+    """def path of the closure an operand *is* (followed through plain moves to its `closure` aggregate).  Not the
+    `closures` of a slice: those also contain every closure used inside callees the value passed through."""
+    if op['k'] not in ('copy', 'move') or op['pl']['p']: return None
+    l = op['pl']['l']
+    for _ in range(8):
+        ds = body.defs_of(l)
+        if len(ds) != 1 or ds[0][0] != 'stmt' or ds[0][2]['dst']['p']: return None
+        rv = ds[0][2]['rv']
+        if rv['k'] == 'agg' and rv['adt'].startswith('closure:'): return rv['adt'][8:]
+        if rv['k'] in ('use',) and rv['ops'][0]['k'] in ('copy', 'move') and not rv['ops'][0]['pl']['p']: l = rv['ops'][0]['pl']['l']; continue
+        if rv['k'] == 'ref' and not rv['pl']['p']: l = rv['pl']['l']; continue
+        return None
+    return None
+
+
+def errflow_g(body, local, depth=0):
+    """templates.errflow with (1) path-sensitive reachability, (2) the failure-keeping combinators of ERR_KEEPING as
+    adaptors, (3) the failure variant of a `match` taken from the type (None = 0 for Option, Err = 1 for Result)."""
+    res = []
+    if depth > 8: return [('bad', 'adaptor chain too deep')]
+    if local == 0: return [('ok', 'returned')]
+    oks = body.strict_ok_exits()
+    uses = body.uses.get(local, ())
+    if not uses: return [('bad', 'result unused (dropped)')]
+    fail = 1 if body.locals[local].strip().lstrip('&').strip().startswith('std::result::Result') else 0
+    for kind, bi, x in uses:
+        if kind == 'call':
+            name = x.name
+            if T.TRY_BRANCH.search(name):
+                arms = T.try_arms(body, local)
+                if arms:
+                    if reach_x(body, [arms[1]]) & oks: res.append(('bad', 'Break arm of ? reaches an Ok-exit'))
+                    else: res.append(('ok', '?'))
+                else: res.append(('bad', 'Try::branch without switch'))
+            elif T.ERR_ADAPTORS.search(name) or (ERR_KEEPING.search(name) and x.arg_local(0) == local):
+                res += [(k, '%s -> %s' % (x.item, h)) for k, h in errflow_g(body, x.dst['l'], depth + 1)]
+            elif T.ERR_BAD.search(name): res.append(('bad', 'consumed by ' + x.item))
+            else: res.append(('bad', 'passed to ' + name[:60]))
+        elif kind == 'stmt':
+            rv = x['rv']
+            if rv['k'] == 'discr':
+                for k3, b3, sw in body.uses.get(x['dst']['l'], ()):
+                    if k3 != 'switch': continue
+                    m = {v: t for v, t in sw['ts']}
+                    if reach_x(body, [m.get(fail, sw['else'])]) & oks: res.append(('bad', 'None/Err side of match reaches an Ok-exit'))
+                    else: res.append(('ok', 'match: None/Err side reaches only Err-exits'))
+            elif rv['k'] == 'use' and x['dst']['p'] == []:
+                o = rv['ops'][0]
+                if o['k'] in ('copy', 'move') and o['pl']['l'] == local and o['pl']['p'] == []:
+                    res += errflow_g(body, x['dst']['l'], depth + 1)
+                # payload extraction (`as Some.0`) is dominated by a discriminant test: ignore
+            elif rv['k'] == 'ref':
+                res += errflow_g(body, x['dst']['l'], depth + 1)
+    if not res: res.append(('bad', 'no recognised consumer'))
+    return res
+
+
 def errflow_ps(ctx, rule, body, calls, what):
-    errflow_calls(ctx, rule, PathSensitive(body), calls, what)
+    for c in calls:
+        out = errflow_g(body, c.dst['l']); ctx.counters['cfg_paths'] += 1
+        bad = sorted({h for k, h in out if k == 'bad'})
+        ctx.check(not bad, rule, 'T-ERRFLOW', body.name, '%s: %s' % (what, '; '.join(bad)), body.site(c.bb), consumers=[h for k, h in out])
 
 
 # --------------------------------------------------------------------------------- as_minimization_problem
@@ -244,20 +334,35 @@ def by_sense(ctx, body, sites, tests):
     return out
 
 
+def ordering_expr(cb, e, flips=0):
+    """an Ordering-valued expression of a comparator closure -> 'natural' (cmp(a.1, b.1)) / 'reversed' (cmp(b.1, a.1)),
+    seen through `.reverse()` and transparent wrappers"""
+    for _ in range(6):
+        e = T.strip_wrappers(e)
+        if e[0] == 'call' and e[1] == 'reverse' and 'Ordering' in e[2] and e[3]: e = e[3][0]; flips += 1; continue
+        break
+    if not (e[0] == 'call' and e[1] in CMP_ITEMS and len(e[3]) == 2): return None
+    def side(x):
+        x = T.strip_wrappers(x)
+        pl = [y for y in T.expr_walk(x) if y[0] == 'place' and y[1] in (2, 3)]
+        return (pl[0][1] if pl else None, [f for a, f in T.expr_fields(x) if a == 'tuple'][-1:])
+    (i0, f0), (i1, f1) = side(e[3][0]), side(e[3][1])
+    if not (f0 == ['1'] and f1 == ['1'] and {i0, i1} == {2, 3}): return 'not-the-objective-values'
+    nat = (i0, i1) == (2, 3)
+    return 'natural' if nat == (flips % 2 == 0) else 'reversed'
+
+
 def comparator_table(ctx, cb):
-    """min_by / max_by comparator closure (a = _2, b = _3): per sense, `natural` (cmp(a.1, b.1)) or `reversed`"""
+    """min_by / max_by comparator closure (a = _2, b = _3): per sense, what the *returned* ordering is:
+         a.1.total_cmp(&b.1) -> natural;  b.1.total_cmp(&a.1) -> reversed;  <natural>.reverse() -> reversed; ..."""
     sites = []
-    for x in cb.calls:
-        if x.item in CMP_ITEMS and len(x.args) == 2:
-            def side(op):
-                e = T.strip_wrappers(T.expr(cb, op))
-                pl = [y for y in T.expr_walk(e) if y[0] == 'place' and y[1] in (2, 3)]
-                return (pl[0][1] if pl else None, [f for a, f in T.expr_fields(e) if a == 'tuple'][-1:])
-            (i0, f0), (i1, f1) = side(x.args[0]), side(x.args[1])
-            if f0 == ['1'] and f1 == ['1'] and {i0, i1} == {2, 3}:
-                sites.append((x.bb, 'natural' if (i0, i1) == (2, 3) else 'reversed'))
-            else:
-                sites.append((x.bb, 'not-the-objective-values'))
+    for k, bi, d in cb.defs_of(0):
+        if k == 'call':
+            c = [x for x in cb.calls if x.bb == bi][0]
+            e = ('call', c.item, c.name, [T.expr(cb, a) for a in c.args], bi)
+        elif not d['dst']['p']: e = T._rv_expr(cb, d['rv'])
+        else: continue
+        sites.append((bi, ordering_expr(cb, e) or 'unrecognised-ordering'))
     return by_sense(ctx, cb, sites, sense_tests(ctx, cb)), bool(sites)
 
 
@@ -266,7 +371,7 @@ def selection_by_call(ctx, R, b, sel):
     rows = {}; sense_ok = True
     body_tests = sense_tests(ctx, b)
     for sc in sel:
-        cls = [ctx.F.bodies.get(n) for n in ctx.S.slice_operand(b, sc.args[1]).closures]
+        cls = [ctx.F.bodies.get(closure_of(b, sc.args[1]))]
         cls = [x for x in cls if x is not None and x.argc == 3]
         if len(cls) != 1:
             ctx.bad(R + '/comparator', 'T-BRANCHFX', b.name, 'comparator closure of %s not found' % sc.item, b.site(sc.bb)); continue
@@ -325,8 +430,11 @@ def selection_by_loop(ctx, R, b, lo, inc, somes):
     def who(op):
         f = item_fields(b, lo, op)
         if f is not None: return ('cand', f)
-        e = T.strip_wrappers(T.expr(b, op))
-        if e[0] == 'place' and e[1] == inc: return ('inc', [f for a, f in e[2] if a == 'tuple'])
+        e = T.expr(b, op)
+        # (best as Some).0.1, best.unwrap().1, best.as_ref().unwrap().1, ...: a projection of the incumbent through transparent calls
+        roots = [y for y in T.expr_walk(e) if y[0] in ('place', 'local') and y[1] == inc]
+        opaque = [y for y in T.expr_calls(e) if not T.TRANSPARENT.search(T.strip_generics_tail(y[2]))]
+        if roots and not opaque: return ('inc', [f for a, f in T.expr_fields(e) if a == 'tuple'])
         return (None, [])
     sites = []; a_call = {}; a_stmt = {}
     def verdict(x, y, rel):
@@ -338,9 +446,15 @@ def selection_by_loop(ctx, R, b, lo, inc, somes):
             x, y = who(c.args[0]), who(c.args[1])
             if x[0] is None and y[0] is None: continue
             used = False
-            for kind, bi, u in b.uses.get(c.dst['l'], ()):
+            for kind, bi, u in [z for al in T.copies_of(b, c.dst['l']) for z in b.uses.get(al, ())]:
                 if kind == 'call' and u.item in ORD_TESTS and 'Ordering' in u.name:
                     sites.append((u.bb, verdict(x, y, ORD_TESTS[u.item]))); a_call[u.bb] = None; used = True
+                elif kind == 'call' and u.item in ('eq', 'ne') and 'PartialEq' in (u.trait or '') and 'Ordering' in (u.self_ty or ''):
+                    # ord == Ordering::Less  (!= Greater is `<=`, ties are not part of C15)
+                    vs = [enum_variant_of_operand(ctx, b, a) for a in u.args]
+                    v = [z.split('::')[-1] for z in vs if z and 'Ordering::' in z]
+                    rel = {('eq', 'Less'): '<', ('eq', 'Greater'): '>', ('ne', 'Greater'): '<', ('ne', 'Less'): '>'}.get((u.item, v[0])) if v else None
+                    if rel: sites.append((u.bb, verdict(x, y, rel))); a_call[u.bb] = None; used = True
             if not used: sites.append((c.bb, 'unrecognised-use-of-the-ordering'))
     for bi, st in b.stmts():
         rv = st['rv']
@@ -352,14 +466,11 @@ def selection_by_loop(ctx, R, b, lo, inc, somes):
     rows = by_sense(ctx, b, sites, tests)
     sense_ok = bool(tests) and all(ctx.S.slice_operand(b, t[4]).has_field(SS, 'sense') for t in tests)
     # the incumbent is replaced exactly when it is empty or the comparison says so
-    arms = [(sb, m, els) for sb, m, els in T.option_arms(b, inc) if sb in blocks]
-    first = bool(arms); iff = bool(arms) and bool(sites)
-    for sb, m, els in arms:
-        n_bb = m.get(0, els); s_bb = m.get(1, els)
-        first = first and header not in reach_x(b, [n_bb], stop=U)
-        no = reach_x(b, [s_bb], stop={header}, assume_stmt={k: False for k in a_stmt}, assume_call={k: False for k in a_call})
-        yes = reach_x(b, [s_bb], stop=U, assume_stmt={k: True for k in a_stmt}, assume_call={k: True for k in a_call})
-        iff = iff and not (no & U) and header not in yes
+    # probe with the incumbent known to be None / Some: `match best`, `if let`, `let-else`, `best.is_none() ||`, `best.is_some() &&`
+    first = header not in reach_x(b, [some_bb], stop=U, init={inc: ('V', 0)})
+    no = reach_x(b, [some_bb], stop={header}, assume_stmt={k: False for k in a_stmt}, assume_call={k: False for k in a_call}, init={inc: ('V', 1)})
+    yes = reach_x(b, [some_bb], stop=U, assume_stmt={k: True for k in a_stmt}, assume_call={k: True for k in a_call}, init={inc: ('V', 1)})
+    iff = bool(sites) and not (no & U) and header not in yes
     ctx.check(first, R + '/first-candidate-taken', 'T-BRANCHFX', b.name, 'an empty incumbent is not always replaced by the candidate', site)
     ctx.check(iff, R + '/replaced-iff-better', 'T-BRANCHFX', b.name, 'the incumbent is not replaced exactly when the comparison with the candidate says so', site)
     return rows, sense_ok
@@ -387,21 +498,23 @@ def best_rules(ctx):
         rows, sense_ok = selection_by_loop(ctx, R, b, lo, inc, somes)
         src_ops = [lo[0].args[0]]; results = [inc]; sel_loop = lo
         # what happens to the incumbent after the loop: None must end in an Err-exit
-        P = PathSensitive(b); bad = []; seen_use = False
+        bad = []; seen_use = False
         for kind, bi, x in b.uses.get(inc, ()):
             if bi in lo[4]: continue
             if kind == 'stmt' and x['rv']['k'] == 'use':
                 o = x['rv']['ops'][0]
                 if o['k'] in ('copy', 'move') and o['pl']['l'] == inc and not o['pl']['p'] and not x['dst']['p']:       # moved as a whole: follow it
-                    seen_use = True; bad += [h for k, h in T.errflow(P, x['dst']['l']) if k == 'bad']
+                    seen_use = True; bad += [h for k, h in errflow_g(b, x['dst']['l']) if k == 'bad']
                 # else: payload extraction, dominated by a discriminant test
             elif kind == 'stmt' and x['rv']['k'] == 'discr':
                 seen_use = True
                 for k3, b3, sw in b.uses.get(x['dst']['l'], ()):
                     if k3 == 'switch' and reach_x(b, [{v: t for v, t in sw['ts']}.get(0, sw['else'])]) & b.strict_ok_exits(): bad.append('None side of match reaches an Ok-exit')
+            elif kind == 'stmt' and x['rv']['k'] == 'ref' and not x['dst']['p']:
+                seen_use = True; bad += [h for k, h in errflow_g(b, x['dst']['l']) if k == 'bad']
             elif kind == 'call':
                 seen_use = True
-                if T.ERR_ADAPTORS.search(x.name): bad += [h for k, h in T.errflow(P, x.dst['l']) if k == 'bad']
+                if T.ERR_ADAPTORS.search(x.name) or ERR_KEEPING.search(x.name): bad += [h for k, h in errflow_g(b, x.dst['l']) if k == 'bad']
                 else: bad.append('passed to ' + x.name[:60])
         ctx.check(seen_use and not bad, R + '/none-is-error', 'T-ERRFLOW', b.name, 'no sample selected: %s' % ('; '.join(sorted(set(bad))) or 'the incumbent is not used after the loop'), b.site(lo[0].bb))
     ctx.check(rows == {'min': 'smaller', 'max': 'larger'}, R + '/order-per-sense', 'T-BRANCHFX', b.name,
@@ -413,7 +526,7 @@ def best_rules(ctx):
     for c in b.calls:
         # opt.map(|(id, _)| id)
         if c.item == 'map' and 'Option' in c.name and c in rs.call_objs and any(l in ctx.S.slice_operand(b, c.args[0]).locals for l in results):
-            for cn in ctx.S.slice_operand(b, c.args[1]).closures:
+            for cn in [closure_of(b, c.args[1])]:
                 cb = ctx.F.bodies.get(cn)
                 if cb is None: continue
                 for bi, st in cb.stmts():
@@ -426,6 +539,19 @@ def best_rules(ctx):
         if rv['k'] == 'use' and not st['dst']['p'] and st['dst']['l'] in rs.locals and rv['ops'][0]['k'] in ('copy', 'move') and rv['ops'][0]['pl']['l'] in results:
             fs = [f for a, f in fields_of_place(rv['ops'][0]['pl']) if a == 'tuple']
             if fs: (ids if fs[-1:] == ['0'] else others).append(bi)
+    sel_bbs_ = {sc.bb for sc in sel}
+    for k, bi, d in b.defs_of(0):
+        # let (id, _) = <selection>.context(..)?; Ok(*id)   -- the value wrapped in the returned Ok, as an expression
+        if k == 'stmt' and not d['dst']['p'] and d['rv']['k'] == 'agg' and d['rv']['adt'].endswith('Result::Ok') and len(d['rv']['ops']) == 1:
+            e = T.expr(b, d['rv']['ops'][0], depth=18)
+            for _ in range(6):
+                if e[0] == 'call' and T.TRANSPARENT.search(T.strip_generics_tail(e[2])) and e[3]: e = e[3][0]; continue
+                break
+            involved = any(len(x) > 4 and x[4] in sel_bbs_ for x in T.expr_calls(e)) or any(y[0] in ('place', 'local') and y[1] in results for y in T.expr_walk(e))
+            tf = [f for a, f in T.own_fields(e) if a == 'tuple']
+            computed = any(y[0] in ('bin', 'un', 'cast') for y in T.expr_walk(e))       # Ok(f(id)) is not the id
+            if involved and computed: others.append(bi)
+            elif involved and tf: (ids if tf[-1:] == ['0'] else others).append(bi)
     if ids and not others: ctx.ok(R + '/returns-id', 'T-CARRY', b.site(ids[0]))
     elif others: ctx.bad(R + '/returns-id', 'T-CARRY', b.name, 'the id (first component) of the selected pair is not what is returned', b.site(others[0]))
     else: ctx.undecided(R + '/returns-id', 'T-CARRY', b.site(), 'how the id is taken out of the selected pair is not recognised; that the selected pair flows into the u64 result is decided (returns-selected)')
@@ -504,6 +630,12 @@ def pair_rules(ctx):
         if b is None: continue
         rs = ctx.S.backslice(b, [0], depth=0)
         names = [c.item for c in rs.call_objs if c.path.endswith('SampleSet>::' + c.item)]
+        # `inner()?` then `outer(..)`  ==  `inner().and_then(|x| self.outer(x))` / `.map(..)`: calls made in this function's own closures that the result passes through
+        for cn in sorted(rs.closures):
+            cb = ctx.F.bodies.get(cn)
+            if cb is None or not cn.startswith(b.name + '::'): continue
+            crs = ctx.S.backslice(cb, [0], depth=0)
+            names += [c.item for c in crs.call_objs if c.path.endswith('SampleSet>::' + c.item)]
         other = {'feasible_ids': 'feasible_unrelaxed_ids', 'feasible_unrelaxed_ids': 'feasible_ids', 'best_feasible_id': 'best_feasible_unrelaxed_id', 'best_feasible_unrelaxed_id': 'best_feasible_id',
                  'feasible_relaxed': 'feasible_unrelaxed', 'feasible_unrelaxed': 'feasible_relaxed'}[inner]
         ok = inner in names and other not in names and (outer is None or outer in names)
